@@ -444,6 +444,13 @@ func (x *Run) intrinsic(fr *Frame, st *State, fn *ssa.Function, args []Val, site
 			}
 			k++
 		}
+		if os.Getenv("GOVC_DEBUG_NTH") != "" {
+			for i, e := range st.events {
+				if evNameMatch(e.Name, sname) {
+					fmt.Fprintf(os.Stderr, "NTH %s #%d ev[%d]=%s retS=%q tup=%d\n", sname, nth, i, e.Name, e.Ret.S, len(e.Ret.Tup))
+				}
+			}
+		}
 		return single(st, x.freshVal(st, "nonth", fn.Signature.Results().At(0).Type())), true
 	case "DynPtrTo":
 		// DynPtrTo(ret, content): ret holds a non-nil pointer to the dynamic type of content
@@ -1066,6 +1073,10 @@ var (
 // evNameMatch: the event name contains pat, not followed by '$' (closures of
 // the named function are different events).
 func evNameMatch(name, pat string) bool {
+	// loop markers ("loop:<function>#n") are not calls of <function>
+	if strings.HasPrefix(name, "loop:") && !strings.HasPrefix(pat, "loop:") {
+		return false
+	}
 	// a pattern ending in "$" must match the end of the event name ("Write$"
 	// does not match "WriteHeader")
 	if strings.HasSuffix(pat, "$") && len(pat) > 1 {
